@@ -45,6 +45,7 @@ DEFAULT_PROFILE = dict(
     sessions_cap=16,
     stoch_early=0.5,
     custom_events=0.0,            # probability of user-defined base Events placed in periods that also hold a built-in event
+    near_level_pilots=0.0,        # scripted party: share of finite-rate pilots placed within the EVSE's 1e-3 A tolerance of a level
     reconfig=0.0,                 # probability that the operator changes constraint limits mid-run (environment fault)
 )
 
@@ -267,6 +268,8 @@ def gen_world(rs: int, P: dict) -> dict:
              "len_mode": rp.choice(["one", "few", "few", "horizon", "mixed", "mixed"]),
              "subset_mode": rp.choice(["all", "occupied", "random", "random"]),
              "empty_prob": rp.choice([0, 0, 0.1, 0.3])}
+    if P.get("near_level_pilots"):
+        party["near_level_pilots"] = P["near_level_pilots"]
     if sorted_party:
         party["sort"] = rp.choice(P["sorts"])
         party["estimator"] = wchoice(rp, P["estimator"])
